@@ -28,37 +28,38 @@ def numbering(s):
     return ents, names
 
 
-def attr_owner(s, over, attr):
-    for en in G.supers(s, over):
-        if any(n == attr for (n, _, _) in G.ent(s, en)["attrs"]):
-            return en
-    raise ValueError((over, attr))
+def dict_records(s):
+    """the schema as data for the model: `E name sups attrs redecl invs` (everything else - supertype closure, slots, attribute
+    layout, the descriptor an INVERSE is linked to - is computed by lean/StepModel/LazyDict.lean)"""
+    ents, names = numbering(s)
+    recs = []
+    for e in s["entities"]:
+        sups = ",".join(str(ents[x]) for x in G.sups_of(e)) or "-"
+        attrs = ",".join(f"{names[n]}.{1 if k in ('listref', 'setref') else 0}" for (n, k, t) in e["attrs"]) or "-"
+        rd = ",".join(str(names[n]) for (n, o, t) in e.get("redecl", [])) or "-"
+        invs = ",".join(f"{100 * ents[e['name']] + j}.{1 if a else 0}.{ents[o]}.{names[at]}" for j, (n, a, o, at) in enumerate(e.get("inverses", []))) or "-"
+        recs.append(f"E {ents[e['name']]} {sups} {attrs} {rd} {invs}")
+    return recs
 
 
 def model_query(s, pop, x, inv, owner):
     ents, names = numbering(s)
     (n, aggr, over, attr) = inv
-    ao = attr_owner(s, over, attr)
-    head = f"resolve {x['id']} 0 {1 if aggr else 0} {ents[over]} {names[attr]} {ents[ao]}"
-    parts = []
+    key = 100 * ents[owner] + [v[0] for v in G.ent(s, owner)["inverses"]].index(n)     # one key per declaration
+    kw = x["parts"][0][0]
+    head = f"rd {x['id']} {ents[kw]} {key} {1 if aggr else 0} {ents[over]} {names[attr]}"
+    recs = []
     for y in sorted(pop, key=lambda v: v["id"]):
         if len(y["parts"]) > 1:
-            ty = "-"
-            attrs = []
-            for (p, vs) in y["parts"]:
-                for (an, k, t), v in zip(G.ent(s, p)["attrs"], vs):
-                    attrs.append((p, an, k, v))
-        else:
-            p, vs = y["parts"][0]
-            ty = ",".join(str(ents[e]) for e in G.supers(s, p))
-            rd = G.redeclared(s, p)
-            attrs = [(o, an, k, (("null",) if an in rd else v)) for (o, an, k, t), v in zip(G.all_attrs(s, p), vs)]
+            recs.append(f"P {y['id']} -")
+            continue
+        p, vs = y["parts"][0]
         toks = []
-        for (o, an, k, v) in attrs:
+        for v in vs:
             refs = [v[1]] if v[0] == "ref" else (list(v[1]) if v[0] == "agg" else [])
-            toks.append(f"{ents[o]}.{names[an]}.{1 if k in ('listref', 'setref') else 0}." + ("+".join(map(str, refs)) if refs else "-"))
-        parts.append(f"{y['id']} {ty} " + " ".join(toks))
-    return head + " ; " + " ; ".join(parts)
+            toks.append("+".join(map(str, refs)) if refs else "-")
+        recs.append(f"P {y['id']} {ents[p]} " + " ".join(toks))
+    return " ; ".join([head] + dict_records(s) + recs)
 
 
 def deep_entities(s):
